@@ -15,10 +15,10 @@ import fw
 
 ID = 'C20'
 LEVEL = 'proof'
-LEAN_TARGETS = ['BareProofs.C20', 'BareProofs.C20Includes']
+LEAN_TARGETS = ['BareProofs.C20', 'BareProofs.C20Includes', 'BareProofs.C20Prog']
 DRIVER = 'drv_c20'
 DRIVER_ROOT = 'Drv.C20'
-GEN = ['Includes']
+GEN = ['Includes', 'DiffBare']
 THEOREMS = [
     'C20.fuel_irrelevant', 'C20.diffLoop_some',
     'C20.diff_left', 'C20.diff_right', 'C20.diff_blocks_nonempty',
@@ -27,21 +27,42 @@ THEOREMS = [
     'C20.splitLines_ne_nil', 'C20.lines_of_line_array',
     'C20.outer_spec', 'C20.outer_isSome', 'C20.outer_mono',
     'C20.includes_parse_validate_lintclean',
+    # program level (BareProofs/C20Prog*.lean): the statement list parse_script returns for the shipped diff.bare (Gen/DiffBare,
+    # regenerated on every run), executed by the jump machine Machine.execute / Machine.callValue over hostDiff
+    'C20Prog.include_binds', 'C20Prog.diffLines_exact', 'C20Prog.include_then_call',
+    'C20Prog.prog_left', 'C20Prog.prog_right', 'C20Prog.prog_blocks_nonempty', 'C20Prog.prog_identical',
+    'C20Prog.body_halts', 'C20Prog.main39', 'C20Prog.split_input', 'C20Prog.ident_block', 'C20Prog.scan_left',
 ]
 ASSUMPTIONS = [
-    'the Lean function Diff.diffLines is a hand translation of the BareScript source include/diff.bare (loops, the while+continue '
-    'lowering of this code base, arraySlice range errors); the link model <-> BareScript source is correspondence-strength: the real '
-    'script is run through the real interpreter (exhaustively for short inputs) and compared with the model',
-    'CPython re: regexSplit with the pattern \\r?\\n is modelled as "cut at every LF, a CR directly before it belongs to the separator"',
+    'PROGRAM LEVEL (C20Prog.*): the theorems are about Gen.diffBare = the statement list the real parse_script returns for the working-tree '
+    'include/diff.bare (harness/extract.py gen_diffbare, converted like every implementation model sent to the drivers: progen.canon_script, '
+    'names through Name.ofString, function definitions numbered in source order), run by the machine model of runtime.py '
+    '(BareModel/Machine.lean, tied to the interpreter by the C01/C08/C09 streams) with the verified library model Lib as its library '
+    '(BareModel/HostLib.lean, tied by the C15 streams). A change of the parsed program makes BareProofs/C20ProgCode (rfl against the '
+    'generated term) fail to compile; the check then searches for a failing input',
+    'regexNew / regexSplit are NOT in the Lib model (no regex engine in Lean): hostDiff = hostLib + regexNew(p) = a regex value that remembers p + '
+    'regexSplit(re, s) = a fresh array holding Diff.splitLines s when the pattern of re is \\r?\\n (every other pattern/arity: null). '
+    '"CPython re.split(\'\\r?\\n\', s) = cut at every LF, a CR directly before it belongs to the separator" is a MODELLED ASSUMPTION, '
+    'correspondence-checked by the diff-inputs stream (LF/CRLF/CR/mixed texts against the real interpreter)',
+    'schemaParse (the documentation model diffTypes, not used by diffLines) is not modelled: the include binds diffTypes to null in the machine model',
+    'diffLines_exact assumes the globals of the call satisfy GOK: the 13 library names diff.bare uses are bound to the library functions, '
+    'diffRegexLineSplit is the regex the include bound, and the variable False (diff.bare:107 spells the literal false with a capital: an '
+    'ordinary undefined variable) is unbound; include_binds proves GOK for the globals the include leaves behind when it starts from the '
+    'library-injected globals; the arguments are a string or an array of strings (other values are outside the property)',
+    'the link functional model Diff.diffLines <-> the BareScript source is now the theorem C20Prog.diffLines_exact (all inputs, unbounded '
+    'length); the diff / diff-inputs / diff-hosts streams remain as an independent end-to-end test of the same link on the real interpreter '
+    '(exhaustive for short inputs) and are what finds a concrete failing input when the program changes',
     'lines are compared with == on strings (value_compare on two str) = code point equality of Lean String (tied by the diff-twins stream: '
     'lines equal up to normalisation form / case / invisible affixes / numeric reading, all planes; surrogate code points cannot reach the '
     'driver and run with the oracle only)',
-    'the result of diffLines does not depend on the script that includes the library and calls it: the model has no notion of a caller; the '
-    'diff-hosts stream runs the real interpreter on a family of caller scripts against the same model function',
+    'the result of diffLines does not depend on the script that includes the library and calls it beyond GOK (theorem: any state, any heap, '
+    'any configuration over hostDiff); the diff-hosts stream runs the real interpreter on a family of caller scripts',
     'Gen/Includes records what parse_script / validate_script / lint_script of the working tree report for each include/*.bare; the '
     'decided theorem is about that table (regenerated on every run), not about a Lean model of the linter',
 ]
-TRUSTED = ['bare.py include fetcher (_fetch_include, _FETCH_INCLUDE_PREFIX) is used as the CLI uses it (fetchFn/systemPrefix options)']
+TRUSTED = ['bare.py include fetcher (_fetch_include, _FETCH_INCLUDE_PREFIX) is used as the CLI uses it (fetchFn/systemPrefix options)',
+           'harness/extract.py gen_diffbare + progen.canon_script: the Lean term Gen.diffBare is the parsed diff.bare (semantic extraction through '
+           'the real parse_script, not text scraping); BareModel/HostDiff.lean: the regexNew/regexSplit entries of hostDiff']
 
 SKIPPED = {'skipped': 'not run: diffLines exceeded its statement budget on earlier inputs'}
 MAX_OVERRUNS = 3
@@ -1018,17 +1039,27 @@ def replay(witness):
     return oracle(inp['left'], inp['right'], fn(inp['left'], inp['right'])) is not None
 
 
-LEVEL_TEXT = ('Theorems for line lists of any length over any line type: the functional model of diffLines (a hand translation of the loops '
-              'of include/diff.bare, with the while+continue lowering of this code base) returns blocks with non-empty line lists whose '
-              'Identical+Remove lines concatenate to the left input and whose Identical+Add lines concatenate to the right input; equal '
-              'inputs give only Identical blocks and empty inputs give []; the fuelled main loop never runs out of fuel (explicit bound '
-              '|L|+|R|+1, result independent of the fuel) and never passes arraySlice an index out of range. The same for string arguments '
-              '(split on \\r?\\n) and arrays of multi-line parts. A decided theorem over the regenerated table Gen/Includes records that every '
-              'shipped include script parses, validates and has no lint warning.')
-LEVEL_NOTE = ('Proof level holds for the Lean model. The link model <-> diff.bare is correspondence-strength: the real script is executed by the '
-              'real interpreter with the CLI include fetcher and compared with the model exhaustively on all pairs of line lists of length '
+LEVEL_TEXT = ('PROGRAM-LEVEL THEOREM (C20Prog.diffLines_exact, include_binds, prog_left/right/blocks_nonempty/identical): for the statement list '
+              'the real parse_script returns for the shipped include/diff.bare (regenerated into Gen/DiffBare on every run), run by the jump '
+              'machine model of runtime.py (label cache, statement counter, call wrapper, _script_function) with the verified library model as its '
+              'library: running the include binds diffLines and diffRegexLineSplit; then for ALL arguments (a string or an array of strings on '
+              'either side, any number of lines, any heap, any caller state whose globals bind the library) the call diffLines(left, right) '
+              'returns a fresh array of objects {type, lines} that decodes to exactly Diff.diffInputs left right - hence blocks with non-empty line '
+              'lists whose Identical+Remove lines concatenate to the left lines and whose Identical+Add lines concatenate to the right lines, and '
+              'only Identical blocks for inputs with equal lines. The while+continue behaviour of this code base (F7) is what the lowered jumps do. '
+              'Model-level theorems (C20.*) for line lists of any length over any line type: the functional model of diffLines returns blocks with '
+              'non-empty line lists that reconstruct both inputs; equal inputs give only Identical blocks and empty inputs give []; the fuelled main '
+              'loop never runs out of fuel (explicit bound |L|+|R|+1, result independent of the fuel) and never passes arraySlice an index out of '
+              'range; the same for string arguments (split on \\r?\\n) and arrays of multi-line parts. A decided theorem over the regenerated table '
+              'Gen/Includes records that every shipped include script parses, validates and has no lint warning.')
+LEVEL_NOTE = ('Proof level holds for the parsed program on the machine model. Assumed, not proved: re.split with \\r?\\n = Diff.splitLines (regexNew/regexSplit '
+              'are outside the Lib model; hostDiff adds exactly these two functions), schemaParse = null, and the machine/library models themselves '
+              '(tied to runtime.py / library.py by the correspondence streams of C01, C08, C09, C15). Independently of the theorem the real script is '
+              'executed by the real interpreter with the CLI include fetcher and compared with the model exhaustively on all pairs of line lists of length '
               '<= 4 (quick) / <= 6 (thorough, <= 5 when fewer than 4 worker processes are available) over a 3-letter alphabet, plus random '
               'pairs up to 40 lines, LF/CRLF texts and chunked arrays, twin lines (different strings equal under a Unicode normalisation form, '
               'a case mapping, invisible affixes, a numeric reading or a length limit; words from all 17 planes) and 165 caller scripts '
-              '(include form x place of the include statement x way of calling); the reconstruction oracle runs on every implementation output. The '
-              'include facts are those reported by parse_script/validate_script/lint_script of the working tree (no Lean model of the linter).')
+              '(include form x place of the include statement x way of calling); the reconstruction oracle runs on every implementation output. '
+              'If diff.bare changes so that its parsed model differs, BareProofs.C20Prog no longer compiles and these streams + the search are what '
+              'produce the concrete failing input. The include facts are those reported by parse_script/validate_script/lint_script of the working '
+              'tree (no Lean model of the linter).')
